@@ -256,8 +256,9 @@ type sym struct {
 	DTs    int64
 	DClock time.Duration
 	NTP    uint64
-	SSRC   uint32   // SR: the SSRC it names
-	More   []uint32 // SR: further sender reports in the same compound packet (SSRC, NTP = NTP+k)
+	SSRC   uint32        // SR: the SSRC it names
+	More   []uint32      // SR: further sender reports in the same compound packet (SSRC, NTP = NTP+k)
+	DSkew  time.Duration // the clock handed to the interceptor (ReceiverNow) steps by this much before the operation
 }
 
 const (
@@ -308,6 +309,8 @@ func (c config) table() []sym {
 			pkt("P(ts-3000,clk+33.3ms)", seqRelH, 1, tsRelLast, -3000, frame), pkt("P(ts0,clk+0)", seqRelH, 1, tsRelLast, 0, 0),
 			pkt("P(ts0,clk+10ms)", seqRelH, 1, tsRelLast, 0, 10*ms), pkt("P(ts+2^31-1,clk+1s)", seqRelH, 1, tsRelLast, 1<<31-1, time.Second),
 			pkt("P(ts-2^30,clk+1s)", seqRelH, 1, tsRelLast, -(1 << 30), time.Second), tick,
+			// the arrival clock steps back by 15 ms before this packet
+			{Name: "P(ts+3000,clk-15ms)", Op: opPkt, Seq: seqRelH, Off: 1, TsMode: tsRelLast, DTs: 3000, DSkew: -15 * ms},
 		}
 	case "sr":
 		a, b := c.Streams[0].SSRC, c.Streams[1].SSRC
@@ -325,6 +328,7 @@ func (c config) table() []sym {
 			{Name: "SR(A,ntp4)+SR(B,ntp4+1s)", Op: opSR, SSRC: a, NTP: 0xFFFFFFFF_FFFFFFFF, More: []uint32{b}},
 			// a compound whose FIRST sender report is for an SSRC that is not bound
 			{Name: "SR(unbound)+SR(A,ntp5+1s)", Op: opSR, SSRC: 0x7777, NTP: 0x22222222_33333333, More: []uint32{a}},
+			{Name: "clock-5ms", Op: opAdv, DSkew: -5 * ms},
 		}
 	case "mixed":
 		var t []sym
@@ -377,10 +381,15 @@ type system struct {
 	ticks    int64 // ticks elapsed
 	outcome  string
 	nontriv  bool
+	skew     int64 // what the injected clock shows minus the virtual time (only ever stepped backwards)
 }
 
+// clock is the time the interceptor is given through ReceiverNow: arrival and report instants are readings of it.
+func (s *system) clock() int64 { return vsched.NowNanos() + s.skew }
+
 func newSystem(c config) (*system, error) {
-	f, err := report.NewReceiverInterceptor(report.ReceiverNow(vsched.Now), report.ReceiverInterval(interval))
+	s := &system{cfg: c, sink: &hk.RTCPSink{}, buf: make([]byte, 1500), rtcpFeed: &hk.FeedReader{}}
+	f, err := report.NewReceiverInterceptor(report.ReceiverNow(func() time.Time { return time.Unix(0, s.clock()) }), report.ReceiverInterval(interval))
 	if err != nil {
 		return nil, err
 	}
@@ -388,7 +397,7 @@ func newSystem(c config) (*system, error) {
 	if err != nil {
 		return nil, err
 	}
-	s := &system{cfg: c, icpt: i, sink: &hk.RTCPSink{}, buf: make([]byte, 1500), rtcpFeed: &hk.FeedReader{}}
+	s.icpt = i
 	s.t0 = vsched.NowNanos()
 	i.BindRTCPWriter(s.sink)
 	s.rtcpRd = i.BindRTCPReader(interceptor.RTCPReaderFunc(s.rtcpFeed.Read))
@@ -429,7 +438,7 @@ func (s *system) advance(d time.Duration) error {
 
 // drain compares every receiver report written since the last call with the reference.
 func (s *system) drain(atTick bool) error {
-	now := vsched.NowNanos()
+	now := s.clock()
 	seen := map[uint32]int{}
 	for _, p := range s.sink.Take() {
 		rr, ok := p.(*rtcp.ReceiverReport)
@@ -510,7 +519,7 @@ func (s *system) compare(st *stream, b block, now int64) error {
 	if !m.hasSR && b.dlsr != 0 {
 		return &mismatch{"C06:delay-since-last-sender-report", fmt.Sprintf("DLSR %d before any sender report%s", b.dlsr, ctx)}
 	}
-	if m.hasSR && !near(b.dlsr, w.dlsr) {
+	if m.hasSR && w.dlsr >= 0 && !near(b.dlsr, w.dlsr) { // a negative delay (the clock stepped back past the sender report) is not judged
 		return &mismatch{"C06:delay-since-last-sender-report", fmt.Sprintf("DLSR %d, reference %d%s", b.dlsr, w.dlsr, ctx)}
 	}
 	// observation class
@@ -553,6 +562,7 @@ var errNotApplicable = fmt.Errorf("symbol not applicable")
 func (s *system) apply(y sym) error {
 	s.outcome = ""
 	s.nontriv = false
+	s.skew += int64(y.DSkew)
 	switch y.Op {
 	case opTick:
 		now := vsched.NowNanos()
@@ -572,7 +582,7 @@ func (s *system) apply(y sym) error {
 		if err != nil || n != len(raw) {
 			return &mismatch{"C06:rtcp-read", fmt.Sprintf("RTCP read returned n=%d err=%v for a %d-byte sender report", n, err, len(raw))}
 		}
-		now := vsched.NowNanos()
+		now := s.clock()
 		all := append([]uint32{y.SSRC}, y.More...)
 		for k, ssrc := range all {
 			for _, st := range s.st {
@@ -639,7 +649,7 @@ func (s *system) apply(y sym) error {
 	if err != nil || n != len(st.feed.Next) {
 		return &mismatch{"C06:rtp-read", fmt.Sprintf("RTP read returned n=%d err=%v for a %d-byte packet", n, err, len(st.feed.Next))}
 	}
-	m.packet(u, ts, vsched.NowNanos())
+	m.packet(u, ts, s.clock())
 	st.lastU = u
 	vsched.Quiesce()
 	return s.drain(false)
@@ -696,7 +706,7 @@ func exec(c config, table []sym, hist []int) hk.Step {
 			}
 		}
 		if step.Violation == nil && !step.Dead {
-			key := hk.DeepHash(s.icpt) ^ hk.EnvHash()
+			key := hk.DeepHash(s.icpt) ^ hk.EnvHash() ^ hk.HashInts(s.skew)
 			for _, st := range s.st {
 				key = key*31 + st.m.hash()
 			}
